@@ -219,6 +219,14 @@ func identityKey(t types.Type) bool {
 			return true
 		case *types.Basic:
 			return b.Kind() == types.UnsafePointer
+		case *types.Struct:
+			for i := 0; i < b.NumFields(); i++ {
+				if identityKey(b.Field(i).Type()) {
+					return true
+				}
+			}
+		case *types.Array:
+			return identityKey(b.Elem())
 		}
 	}
 	return false
